@@ -52,6 +52,18 @@ def variance_ok(kind, op, val, sample, p):
     return False
 
 
+def _canon_variance(V):
+    """`cv = cv + x` (the sum formed from the entry value, in either order, anywhere before the store) is `cv += x`: the
+    function has one variance statement, so nothing changes cv in between"""
+    if V["op"] == "=" and isinstance(V["val"], tuple) and V["val"][0] == "fop" and V["val"][1] == "+" and len(V["val"]) == 4:
+        a_, b_ = V["val"][2], V["val"][3]
+        if a_ == V["lv"]:
+            return dict(V, op="+=", val=b_)
+        if b_ == V["lv"]:
+            return dict(V, op="+=", val=a_)
+    return V
+
+
 def _canon_update(op, val):
     """x -= v is x += -v: one form for additive updates"""
     if op == "-=" and isinstance(val, tuple):
@@ -82,6 +94,8 @@ def check_lwe_op(chk, v, name, spec):
     # R1 homomorphism + oracle
     k1 = "%s: the statement on a[i] and the statement on b are the same map, '%s'" % (name, op)
     problems = []
+    if (not a_st or len(b_st) != 1 or len(v_st) != 1) and summ.opaque_writers(v, ps):
+        chk.broken("%s: memory may be written by %s, which the analysis does not see through" % (name, summ.show_opaque(summ.opaque_writers(v, ps))))
     if not a_st or len(b_st) != 1 or others:
         problems.append("expected mask statements and one b statement, found %d/%d (+%d others)" % (len(a_st), len(b_st), len(others)))
     else:
@@ -149,7 +163,7 @@ def check_lwe_op(chk, v, name, spec):
     if len(v_st) != 1:
         chk.refuted("R3", k3, where=where, detail="%d variance statements" % len(v_st), variant=vn)
     else:
-        V = v_st[0]
+        V = _canon_variance(v_st[0])
         okv = V["op"] == vop and variance_ok(vkind, V["op"], V["val"], sample, pint)
         chk.require(okv, "R3", k3, where="%s:%s" % (f.file, V["line"]), ok="%s %s" % (V["op"], sym.show(V["val"])),
                     bad="found '%s %s', expected %s %s" % (V["op"], sym.show(V["val"]), vop, vkind), variant=vn)
@@ -218,7 +232,7 @@ def check_tlwe_op(chk, v, name, spec):
         else:
             s_el = None
         want = fn(s_el, pint)
-        if p["op"] != op or p["val"] != want:
+        if _canon_update(p["op"], p["val"]) != _canon_update(op, want):
             problems.append("line %s: '%s %s %s', expected '%s %s'" % (p["line"], sym.show(p["lv"])[:40], p["op"], sym.show(p["val"])[:40], op, sym.show(want)[:40]))
             continue
         parsed.append((p, ci, je))
@@ -247,6 +261,9 @@ def check_tlwe_op(chk, v, name, spec):
                 chk.broken("%s: %s" % (name, e))
             wantset = {(c_, j_) for c_ in range(kv + 1) for j_ in range(nv)}
             if set(hits) != wantset or any(c_ != 1 for c_ in hits.values()):
+                opq = summ.opaque_writers(v, ps)
+                if opq:
+                    chk.broken("%s: memory may be written by %s, which the analysis does not see through" % (name, summ.show_opaque(opq)))
                 miss = sorted(wantset - set(hits))
                 extra = sorted(set(hits) - wantset)
                 dup = sorted(h_ for h_, c_ in hits.items() if c_ > 1)
@@ -258,7 +275,7 @@ def check_tlwe_op(chk, v, name, spec):
     chk.require(not problems, "R4", key, where=f.where, ok="%d statement(s): %s" % (
         len(coef), "a[0..k] " if not has_b else "a[0..k) and b"), bad="; ".join(problems)[:500], variant=vn)
     if len(var) == 1:
-        V = var[0]
+        V = _canon_variance(var[0])
         Vs = P(sample, "current_variance") if sample else None
         okv = {"zero": V["op"] == "=" and V["val"] in (ZERO, ("float", 0.0)),
                "var": V["op"] == "=" and V["val"] == Vs,
@@ -555,7 +572,14 @@ def check_tlwe_monomial(chk, v):
     other = [p for p in ps if p["kind"] == "store" and sym.root_of(p["lv"]) == sym.sym(res) and not p.get("byref")]
     key = "tLweMulByXaiMinusOne multiplies each of the k+1 components by X^ai - 1 for every ring degree"
     problems = []
-    if len(calls) != 1 or other or len(calls[0]["loops"]) != 1 or calls[0]["guards"]:
+    canonical = len(calls) == 1 and not other and len(calls[0]["loops"]) == 1 and not calls[0]["guards"]
+    if canonical:
+        lp_ = calls[0]["loops"][0]
+        hi_ = lp_["hi"] if lp_["cmp"] == "<" else sym.add(lp_["hi"], I(1)) if lp_["cmp"] == "<=" else None
+        a_ = calls[0]["args"]
+        canonical = (lp_["lo"] == ZERO and hi_ == sym.add(K, I(1)) and lp_.get("step", I(1)) == I(1)
+                     and a_[0] == sym.addr(sym.idx(P(res, "a"), lp_["var"])) and a_[2] == sym.addr(sym.idx(P(bk, "a"), lp_["var"])))
+    if not canonical:
         # not one library call per component (the rotation written out, a peeled body, helpers): by interpretation
         wit = tlwe_monomial_by_interpretation(chk, v, f)
         chk.require(wit is None, "R7", key, where=f.where, ok="interpreted for k in 1..3, N in {1..6, 8, 9} and every ai in [0, 2N): component i of the result is "
